@@ -50,6 +50,15 @@ def columns(x, dim):
     return out
 
 
+def reduced_shape_ok(c, name, out, x, dim):
+    """the result has one entry per column of the sample (checked before any entry is read)"""
+    shape = tuple(x.shape)
+    want = () if dim is None else tuple(s_ for i, s_ in enumerate(shape) if i != dim % len(shape))
+    ok = tuple(out.shape) == want
+    c.check("%s: result shape %s" % (name, list(want)), ok)
+    return ok
+
+
 def es_case(shape, dim, p, via="functional", sym_p=False):
     from pfhedge.nn import functional as F
     from pfhedge.nn import ExpectedShortfall
@@ -79,6 +88,8 @@ def es_case(shape, dim, p, via="functional", sym_p=False):
         cols = columns(src, dim)
         oshape = tuple(s for i, s in enumerate(shape) if dim is not None and i != dim % len(shape))
         c.check("ES shape", tuple(out.shape) == oshape)
+        if tuple(out.shape) != oshape:
+            return
         for idx, col in cols:
             want = -k_smallest_sum(col, k) / k
             c.check("ES%s = -mean of the %d worst of %d" % (list(idx), k, n), api.eq(elem(out, *idx), want))
@@ -99,6 +110,8 @@ def var_case(shape, dim, p):
         x = api.tensor(c, "x", shape)
         out = F.value_at_risk(x, p, dim=dim)
         n = int(np.prod(shape)) if dim is None else shape[dim]
+        if not reduced_shape_ok(c, "VaR", out, x, dim):
+            return
         for idx, col in columns(x, dim):
             o = elem(out, *idx)
             lo, hi = api.minv(*col), api.maxv(*col)
@@ -160,6 +173,8 @@ def entropic_case(shape, via):
                 m = nn.EntropicRiskMeasure(1.0)
             m.a = a
             out, src = m(x, tgt), x - tgt
+        if not reduced_shape_ok(c, "entropic risk", out, src, 0):
+            return
         for idx, col in columns(src, 0):
             tot = sum((api.exp(-a * e) for e in col[1:]), api.exp(-a * col[0]))
             c.check("entropic risk%s = (1/a) log mean exp(-a x)" % list(idx), api.eq(elem(out, *idx), api.log(tot / n) / a))
@@ -249,6 +264,8 @@ def qcvar_case(N, M, decade, via="functional", controls=False, lam_value=None, f
         cols = columns(src, 0 if M else None)
         w = api.real(c, "w_any")
         c.check("the search is one bisect call", len(stub.calls) == 1)
+        if not reduced_shape_ok(c, "quadratic CVaR", out, src, 0 if M else None):
+            return
         for idx, col in cols:
             v = elem(out, *idx)
             obj = w + lam * sum((api.maxv(-w - e, 0) * api.maxv(-w - e, 0) for e in col[1:]), api.maxv(-w - col[0], 0) * api.maxv(-w - col[0], 0)) / len(col)
